@@ -8,6 +8,61 @@ CHECKS = {
         text="Generated exploration of the parameter lattice (bounds at 2^k-1/2^k/2^k+1/p-2/p-1, dividing and non-dividing chunk lengths, 2..254 aggregators, 1..255 proofs, three XOFs incl. a rejection-heavy one) with batches of in-range measurements; every message goes through its encoding; oracle is an independent big-integer aggregate plus a per-report check that output shares sum to the truncated documented encoding. Finds parameter-dependent defects, does not prove absence.",
         note="Trusted: the harness's reference encoder/aggregate (written from the type documentation), proptest, splitmix expansion of seeds into randomness.",
         design="3/C01"),
+    "C02": dict(
+        technique="property-based testing (proptest) with a malicious-client device (real sharding code run on arbitrary vectors through a Type wrapper) and wire-level tampering; independent validity predicate as oracle; exhaustive sweep over message positions",
+        text="Invalid/near-miss vectors are sharded by the library's own sharding code with an honest proof and must be rejected by the real instance (4 independent verification keys before an acceptance is reported); honest reports are altered on the wire (bit flips, field-element deltas, truncation, swaps, drops, duplicates, foreign messages) and a single effective alteration must make some aggregator fail, several alterations may only complete with valid (and, if no input share was touched, honest) outputs; every element position of leader share and verifier shares is swept for fixed configurations.",
+        note="Trusted: the validity predicate written from the type documentation; soundness error <= 2^-50 per attempt.",
+        design="3/C02"),
+    "C04": dict(
+        technique="differential testing against a BigUint reference implementation of the Poplar1 sketch fed by independent IDPF evaluation (proptest-generated altered and attacker-built reports)",
+        text="Honest reports with 1..3 region-addressed alterations (correction words, keys, correlated-randomness seeds and shares, sketch messages in transit) and clients assembled from public pieces with arbitrary programmed values / authenticators / A,B shares; the library's verifier shares, verdict and output shares must equal a BigUint transcription of the sketch computed from the wire bytes and an independent NoCache evaluation of both IDPF keys; accepted => candidates' summed output is zero or one-hot with value 1.",
+        note="Trusted: the reference sketch algebra; field sampling from XOF streams is the library's (checked by C11); Idpf::gen keys come from the OS (verdict independent).",
+        design="3/C04"),
+    "C05": dict(
+        technique="property-based testing (proptest) clause by clause + exhaustive enumeration of wire-domain roots of unity",
+        text="Generated circuits/parameters over both fields, valid (incl. alternative valid encodings) and invalid inputs, degenerate and uniform randomness, root-of-unity and next-order-root query points, 1..8 shares: lengths, wrong-length refusal, completeness for every non-root randomness, soundness with re-tests, share linearity, root refusal (two-sided), every proof position altered => rejected; all roots of all domains up to 2^6 (2^10 thorough) enumerated.",
+        note="Trusted: documented encoding/validity model; soundness error of the FLP.",
+        design="3/C05"),
+    "C06": dict(
+        technique="exhaustive small-tree enumeration + property-based evaluation histories (proptest) with differential oracle (cached vs NoCache) and programmed-value oracle",
+        text="All prefixes of all trees <= 6 bits (8 thorough) for 4 value-type pairs; generated histories on trees up to 400 bits sharing NoCache/HashMapCache/RingBufferCache(0..8,64)/a lossy harness cache; every evaluation must equal the programmed value/zero and the NoCache result.",
+        note="Trusted: Idpf::gen keys from the OS (verdict independent by perfect correctness).",
+        design="3/C06"),
+    "C09": dict(
+        technique="exhaustive enumeration of the generic field arithmetic at 8/16-bit word sizes (hook H1) + lattice/random differential testing of the deployed fields against BigUint",
+        text="Complete operand spaces of add/sub/mul/neg/inv/montgomery/residue/pow for 5 eight-bit and 8 sixteen-bit instantiations of the same generic single-word and split-word code (16-bit binary ops: lattice+1024 rows x all y in quick, all rows in thorough); deployed fields: limb-boundary lattice x lattice for raw Montgomery words and for the public operators, conversions, encodings, equality/hash consistency, generator and roots of exact order; Field255 at 51-bit limb boundaries.",
+        note="Trusted: u64/BigUint arithmetic. The step from scaled-down to deployed widths rests on the code being the same generic functions. The split-word instantiations respect the implicit precondition p*(p+2^(W/2)) < 2^(2W) of the split-word reduction (65521 would not; the deployed 128-bit prime does).",
+        design="3/C09"),
+    "C10": dict(
+        technique="exhaustive basis-vector certification of the linear transforms (hook H2) + property-based comparison of the Lagrange routines with naive O(n^2) references",
+        text="ntt/ntt_set_s/ntt_inv on every basis vector, every matrix entry, for all sizes <= 2^8 (2^11 thorough) over 3 fields; sizes up to 2^20 sampled; batched Lagrange evaluation at every node, extension for every partial length, doubling, multiplication, range-check polynomials, root powers; size/capacity errors.",
+        note="Trusted: field arithmetic (C09), naive interpolation/Horner.",
+        design="3/C10"),
+    "C11": dict(
+        technique="metamorphic property-based testing (chunking independence) + tape-driven differential testing of field sampling against the specified rule, with enumerated rejection positions",
+        text="Seed/tag/binder splittings and read-size sequences for three XOFs (and the reusable fixed-key entry point); tape RNG with per-chunk classes (canonical, rejected, p-1, p, p+1, high bits) and a rejection at every slot of the 32-element buffer incl. runs straddling refills, four fields; IdpfValue::generate incl. read pattern.",
+        note="Trusted: the sampling rule transcribed from the draft; byte values of the XOFs themselves are pinned by the repository's test vectors, not re-derived.",
+        design="3/C11"),
+    "C12": dict(
+        technique="model-based testing of delivery/restart histories (generated + exhaustive to a depth bound) against a reference broadcast execution, with an instrumented order- and round-sensitive VDAF",
+        text="Histories over deliver/replay/re-type/corrupt-to-undecodable/reload/evaluate-again for an instrumented VDAF with 1..6 rounds, Prio3, Poplar1, Prio2 and the dummy VDAF; exact message sequence and payloads, aggregator order at the combiner, outputs equal to broadcast execution, every fault refused, reloaded continuations identical; all 6^5 (6^7) histories for R<=3.",
+        note="Trusted: the harness's reference execution. Decodable content changes of messages are C02/C04's subject.",
+        design="3/C12"),
+    "C13": dict(
+        technique="property-based testing (proptest): generated partitions, permutations and merge trees vs a single left-to-right pass",
+        text="1..30 arbitrary output shares per aggregator (through the real decoders) for Prio3 types, Poplar1 inner/leaf and Prio2; byte equality of aggregate shares under any batching/merge order, identity, commutativity, unshard agreement, refusal of mismatched length/level kind leaving the accumulator unchanged.",
+        note="Trusted: nothing beyond the harness itself (pure metamorphic relation).",
+        design="3/C13"),
+    "C14": dict(
+        technique="differential property-based testing: multithreaded vs serial instantiation under per-case rayon pools (size, load and repetition varied)",
+        text="Byte equality of every message and the result between ParallelSumMultithreaded and ParallelSum instantiations of SumVec/Histogram/MultihotCountVec for pool sizes 1..32, repetitions and contention; gadget-level eval_poly/eval equality with dirty output buffers.",
+        note="Schedules are perturbed, not enumerated (stated limit of the technique); a violation requires a structural defect.",
+        design="3/C14"),
+    "C16": dict(
+        technique="table-driven property-based testing of every Result-returning entry point with extreme-value argument lattices and per-class expectations (MustErr / MustOk+exercise / NoPanic)",
+        text="Constructors of all Prio3/FLP types, Prio2, Poplar1 operations with 0 bits, measurements out of range / wrong length (exact accept-reject oracle), randomness length, aggregator ids, swapped roles, directly constructed malformed shares, share counts, foreign states/messages, aggregate/unshard/decode_result lengths, IDPF gen, prefix lists, DP constructors and noise application; constructed extremes are used end to end within a memory budget.",
+        note="Trusted: the documented-domain table in engine/src/c16.rs. Nine defects found by this check were repaired (known_findings.txt).",
+        design="3/C16"),
     "C03": dict(
         technique="property-based testing (proptest): generated Poplar1 batches and admissible aggregation-parameter chains (incl. deep levels > 21845) vs plain prefix counts; heavy hitters vs brute force",
         text="Generated exploration over bit lengths 1..65536 (deep levels in every run), candidate sets mixing on-path prefixes, siblings and random strings, chains of parameters on the same reports, three XOF instantiations incl. a rejection-heavy one; two-round verification over the wire; oracle is a plain count of inputs starting with each prefix and brute-force heavy hitters.",
